@@ -44,6 +44,14 @@ CLAIMED['C04'] = dict(
          'the whole-run sequence statement follows by composition with C01/C02 and is not separately explored.',
     ref='5/C04, 4.2, 4.3')
 
+CLAIMED['C03'] = dict(
+    technique='zone-domain (difference-bound) availability analysis over the instantiated AST, epoch-tagged pointers (abstract interpretation)',
+    text='BOUNDS (DESIGN.md 4.4): on every path of every function that receives the parse input (all match(), Peek::peek(), Eol::eol_match() patterns; memory eager/lazy and '
+         'buffer inputs; every end-of-line policy) each read of n bytes at current()+k and each advance by n must be dominated by an availability fact avail >= k+n obtained '
+         'from empty()/size()/end() on the same path at the same cursor position. Because rules are checked against the abstract input interface, the result does not depend on '
+         'NUL termination or on a larger underlying buffer - exactly the cases the test-suite (std::string data) cannot exercise. Pattern coverage is enforced.',
+    ref='4.4, 5/C03')
+
 NOT_YET = 'check not built yet in this round (see DESIGN.md section 10 for the order of construction); no claim is made'
 
 NA_REASONS = {}
